@@ -315,6 +315,40 @@ func runC14Driver(c bson.D, x *Ctx) (err error) {
 	if !equalUpToFieldOrder(two, r2[0]) {
 		return fmt.Errorf("FindOneAndUpdate (before image) projects differently from Find: %s vs %s", show(two), show(r2[0]))
 	}
+	// the after image of a find-and-modify that modifies, and of one that
+	// inserts (upsert), is projected like any other result
+	var three, four, five bson.D
+	if e := coll.FindOneAndUpdate(ctx, bson.D{{Key: "_id", Value: getD(doc, "_id")}}, bson.D{{Key: "$unset", Value: bson.D{{Key: "zz", Value: ""}}}}, options.FindOneAndUpdate().SetProjection(proj).SetReturnDocument(options.After)).Decode(&three); e != nil {
+		return fmt.Errorf("FindOneAndUpdate (after image) with an accepted projection failed: %v", e)
+	}
+	if !equalUpToFieldOrder(three, r2[0]) {
+		return fmt.Errorf("FindOneAndUpdate (after image) projects differently from Find: %s vs %s", show(three), show(r2[0]))
+	}
+	body := bson.D{}
+	for _, e := range doc {
+		if e.Key != "_id" {
+			body = append(body, e)
+		}
+	}
+	if e := coll.FindOneAndReplace(ctx, bson.D{{Key: "_id", Value: "upserted-1"}}, copyD(body), options.FindOneAndReplace().SetProjection(proj).SetUpsert(true).SetReturnDocument(options.After)).Decode(&four); e != nil {
+		return fmt.Errorf("FindOneAndReplace (upsert, after image) with an accepted projection failed: %v", e)
+	}
+	if e := coll.FindOne(ctx, bson.D{{Key: "_id", Value: "upserted-1"}}, options.FindOne().SetProjection(proj)).Decode(&five); e != nil {
+		return fmt.Errorf("FindOne of the upserted document failed: %v", e)
+	}
+	if !equalUpToFieldOrder(four, five) {
+		return fmt.Errorf("FindOneAndReplace (upsert, after image) returned %s, FindOne with the same projection returns %s", show(four), show(five))
+	}
+	var six, seven bson.D
+	if e := coll.FindOneAndUpdate(ctx, bson.D{{Key: "_id", Value: "upserted-2"}}, bson.D{{Key: "$set", Value: bson.D{{Key: "a", Value: getD(doc, "a")}, {Key: "b", Value: getD(doc, "b")}}}}, options.FindOneAndUpdate().SetProjection(proj).SetUpsert(true).SetReturnDocument(options.After)).Decode(&six); e != nil {
+		return fmt.Errorf("FindOneAndUpdate (upsert, after image) with an accepted projection failed: %v", e)
+	}
+	if e := coll.FindOne(ctx, bson.D{{Key: "_id", Value: "upserted-2"}}, options.FindOne().SetProjection(proj)).Decode(&seven); e != nil {
+		return fmt.Errorf("FindOne of the upserted document failed: %v", e)
+	}
+	if !equalUpToFieldOrder(six, seven) {
+		return fmt.Errorf("FindOneAndUpdate (upsert, after image) returned %s, FindOne with the same projection returns %s", show(six), show(seven))
+	}
 	x.Class("accepted")
 	if len(proj) >= 2 {
 		x.NonTrivial()
